@@ -15,7 +15,8 @@
    consume never lifts the debt above max_debt, whatever interest is outstanding.
    [op_nonneg] = every cost / amount argument is >= 0. *)
 From Coq Require Import ZArith List Bool.
-From Verif Require Import C04.Model C04.Proofs gen.Gen_C04 C04.GenOk C04.GenSys C04.GenProps.
+From Coq Require Import PrimFloat FloatOps.
+From Verif Require Import C04.Model C04.Proofs gen.Gen_C04 C04.GenOk C04.GenSys C04.GenProps C04.RateOk.
 Import ListNotations.
 Open Scope Z_scope.
 
@@ -245,3 +246,12 @@ Theorem c04_gen_no_overdraft_from_configurations :
     Forall (fun x => Forall ginv (fst x)) (grun (map proj (map init_store cfgs)) ops).
 Proof. exact gen_inv_from_configs. Qed.
 Print Assumptions c04_gen_no_overdraft_from_configurations.
+
+(* The configuration hypothesis [rate_ok] above holds of every store whose rate rate_n / rate_d is not a negative
+   finite double (0.1 = 1/10, the default, and 0 are Examples in RateOk.v).  This is the one statement of the
+   development that reasons about binary64 arithmetic: it rests on the standard library's specification axioms
+   of primitive floats, mul_spec and of_uint63_spec (Coq.Floats.FloatAxioms), as Print Assumptions shows. *)
+Theorem c04_rate_ok_of_nonneg_rate :
+  forall s, RateOk.nonneg_sf (FloatOps.Prim2SF (f_of_Z (rate_n s) / f_of_Z (rate_d s))%float) -> rate_ok s.
+Proof. exact RateOk.rate_ok_of_nonneg_rate. Qed.
+Print Assumptions c04_rate_ok_of_nonneg_rate.
